@@ -638,3 +638,100 @@ package netceptor
 //@   site block * EXITS: [C10 C17] requires waits(ctxdone(ctx))
 //@   loop #1
 //@     invariant BUDGET: [C10] 0 <= loopphi(0) && loopphi(0) <= 256 && (loopphi(0) == 0 ? !flag("probed") : flag("probed") && lastarg("Ping", 2) == loopphi(0) - 1)
+
+// ---- C12: rule construction.  A comparer for a literal pattern is equality on the named field; a rule function
+// ---- returns its action exactly when every comparer matches and Continue otherwise; a field given in the rule text
+// ---- always yields a comparer (a pattern that cannot be compiled must not silently turn into "match everything");
+// ---- the values taken from the rule text are used verbatim.
+
+//@ spec cmpres(c CompareFunc, md *MessageData) bool
+//@ func functype CompareFunc
+//@   params c, md
+//@   pure
+//@   ensures result == cmpres(c, md)
+
+//@ func stringCompare$1
+//@   tags C12
+//@   ensures EQ: [C12] result == (md.FromNode == value)
+//@ func stringCompare$2
+//@   tags C12
+//@   ensures EQ: [C12] result == (md.FromService == value)
+//@ func stringCompare$3
+//@   tags C12
+//@   ensures EQ: [C12] result == (md.ToNode == value)
+//@ func stringCompare$4
+//@   tags C12
+//@   ensures EQ: [C12] result == (md.ToService == value)
+
+//@ func stringCompare
+//@   tags C12
+//@   modifies nothing
+//@   ensures KNOWNFIELD: [C12] (strings.ToLower(field) == "fromnode" || strings.ToLower(field) == "fromservice" || strings.ToLower(field) == "tonode" || strings.ToLower(field) == "toservice") ==> result.0 != nil && result.1 == nil
+
+//@ spec patcompiles(field string, p string) bool
+//@ spec patok(field string, p string) bool := !strings.HasPrefix(p, "/") || patcompiles(field, p)
+//@ spec knownfield(f string) bool := f == "fromnode" || f == "fromservice" || f == "tonode" || f == "toservice"
+
+// assumed: compiling the same pattern twice gives the same verdict (TRUSTED_DET); proved: no panic for any pattern,
+// a comparer exists whenever no error is returned
+//@ func regexCompare
+//@   tags C12
+//@   safetytags C12
+//@   safety slice index
+//@   modifies nothing
+//@   ensures PAIR: [C12] result.1 == nil ==> result.0 != nil
+//@   ensures TRUSTED_DET: (result.1 == nil) == patcompiles(field, value)
+
+//@ func checkPattern
+//@   tags C12
+//@   modifies nothing
+//@   ensures CHECKED: [C12] result == nil ==> patok(field, pattern)
+
+//@ func (FirewallRule).checkPatterns
+//@   tags C12
+//@   modifies nothing
+//@   ensures ALLFOUR: [C12] result == nil ==> patok("fromnode", fr.FromNode) && patok("tonode", fr.ToNode) && patok("fromservice", fr.FromService) && patok("toservice", fr.ToService)
+
+// a field given in the rule always constrains the rule
+//@ func buildComp
+//@   tags C12
+//@   requires VALIDATED: patok(field, pattern) && knownfield(field)
+//@   assume strings.ToLower("fromnode") == "fromnode" && strings.ToLower("tonode") == "tonode" && strings.ToLower("fromservice") == "fromservice" && strings.ToLower("toservice") == "toservice"
+//@   modifies nothing
+//@   ensures FAILCLOSED: [C12] pattern != "" ==> result != nil
+//@   ensures NOPATTERN: [C12] pattern == "" ==> result == nil
+
+//@ func (FirewallRule).BuildComps
+//@   tags C12
+//@   requires VALIDATED: patok("fromnode", fr.FromNode) && patok("tonode", fr.ToNode) && patok("fromservice", fr.FromService) && patok("toservice", fr.ToService)
+//@   site call buildComp@1 F1: [C12] requires arg0 == "fromnode" && arg1 == fr.FromNode
+//@   site call buildComp@2 F2: [C12] requires arg0 == "tonode" && arg1 == fr.ToNode
+//@   site call buildComp@3 F3: [C12] requires arg0 == "fromservice" && arg1 == fr.FromService
+//@   site call buildComp@4 F4: [C12] requires arg0 == "toservice" && arg1 == fr.ToService
+//@   ensures COUNT: [C12] len(result) == (fr.FromNode != "" ? 1 : 0) + (fr.ToNode != "" ? 1 : 0) + (fr.FromService != "" ? 1 : 0) + (fr.ToService != "" ? 1 : 0)
+
+// the rule function with comparers: its action when all comparers match, Continue (0) otherwise
+//@ func firewallRule$2
+//@   tags C12
+//@   requires md != nil
+//@   loop range comparers
+//@     invariant ALLSOFAR: [C12] matched == (forall j int :: 0 <= j && j <= rangeindex ==> cmpres(comparers[j], md))
+//@   ensures RULE: [C12] result == ((forall j int :: 0 <= j && j < len(comparers) ==> cmpres(comparers[j], md)) ? captured("result") : 0)
+//@ func firewallRule$1
+//@   tags C12
+//@   ensures ALWAYS: [C12] result == captured("result")
+
+//@ func firewallRule
+//@   tags C12
+//@   modifies nothing
+//@   ensures ACTION: [C12] result.1 == nil ==> result.0 != nil && (strings.ToLower(action) == "accept" || strings.ToLower(action) == "reject" || strings.ToLower(action) == "drop")
+//@   ensures UNKNOWNACTION: [C12] !(strings.ToLower(action) == "accept" || strings.ToLower(action) == "reject" || strings.ToLower(action) == "drop") ==> result.1 != nil && result.0 == nil
+
+//@ func (FirewallRuleData).ParseFirewallRule
+//@   tags C12
+//@   site store FirewallRule.Action VERBATIM0: [C12] requires value == lastcall("String", 0)
+//@   site store FirewallRule.FromNode VERBATIM1: [C12] requires value == lastcall("String", 0)
+//@   site store FirewallRule.ToNode VERBATIM2: [C12] requires value == lastcall("String", 0)
+//@   site store FirewallRule.FromService VERBATIM3: [C12] requires value == lastcall("String", 0)
+//@   site store FirewallRule.ToService VERBATIM4: [C12] requires value == lastcall("String", 0)
+//@   site call firewallRule FROMTEXT: [C12] requires arg1 == fr.Action && arg0 == lastcall("BuildComps", 0) && lastcall("checkPatterns", 0) == nil
